@@ -855,7 +855,8 @@ impl<'a> Searcher<'a> {
                 let git_repository = match git_repository {
                     Some(repo) => Some(repo),
                     None if apply_gitignore => {
-                        repo = Repository::open(&path).ok();
+                        // (a sub-directory of a repository found on the way down is not a repository root itself)
+                        repo = Repository::discover(&path).ok();
                         repo.as_ref()
                     },
                     _ => None,
